@@ -148,6 +148,11 @@ func cmdLock(args []string) {
 			byKey[fi.Key] = fi
 		}
 	}
+	for _, fi := range prog.AspectFuncs {
+		if fi.Kind == KContract {
+			byKey[fi.Key] = fi
+		}
+	}
 	for prop, ps := range pmap {
 		if len(args) > 0 && !contains(args, prop) {
 			continue
